@@ -231,7 +231,9 @@ pub fn app_layer(scratch: &crate::world::app::Scratch, net: &Net, st: &mut Stats
     spec.turn = Some(turn);
     spec.cost = json!({"weights": {"distance": wd, "time": wt}, "vehicle_rates": {"distance": {"type": "raw"}, "time": {"type": "factor", "factor": 2.0}}, "cost_aggregation": "sum", "network_rates": {}});
     spec.output_plugins = vec![json!({"type": "traversal", "route": "json", "geometry_input_file": "$DIR/geometries.txt"})];
-    let dir = scratch.path.join(format!("a{}", net.hash_idx()));
+    // (the same network can come from two families at the same time: the directory name carries a counter)
+    static APP_DIR_COUNTER: std::sync::atomic::AtomicU64 = std::sync::atomic::AtomicU64::new(0);
+    let dir = scratch.path.join(format!("a{}_{}", net.hash_idx(), APP_DIR_COUNTER.fetch_add(1, std::sync::atomic::Ordering::Relaxed)));
     let app = match spec.build(&dir) {
         Ok(a) => a,
         Err(e) => {
